@@ -277,6 +277,9 @@ impl Builder {
         };
 
         let closure = move || {
+            // a pooled generator keeps the last event result of its previous
+            // user if that one never consumed it, don't inherit it
+            crate::yield_now::get_co_para();
             // trigger the JoinHandler
             // we must declare the variable before calling f so that stack is prepared
             // to unwind these local data. for the panic err we would set it in the
